@@ -6,7 +6,7 @@ import facts as F
 import mir
 
 VERIF = F.VERIF
-EVID = os.path.join(VERIF, "evidence")
+EVID = os.environ.get("RM_EVID") or os.path.join(VERIF, "evidence")
 PROPS = ["C%02d" % i for i in range(1, 21)]
 
 
